@@ -68,6 +68,8 @@ pub trait Part {
     }
     /// marks the part as an exhaustive enumeration (the strategy is ignored; `directed` enumerates)
     const EXHAUSTIVE: bool = false;
+    /// exhaustive parts: enumerate and judge in one pass; `visit` returns false to stop
+    fn enumerate(_tier: Tier, _visit: &mut dyn FnMut(&Self::Case, Outcome) -> bool) {}
     /// false for free-running (uncontrolled OS thread) parts: a failing case need not reproduce,
     /// so it is reported as observed (with its recorded history) instead of being shrunk
     const DETERMINISTIC: bool = true;
@@ -187,7 +189,11 @@ fn eval_one<P: Part>(case: &P::Case, acc: &mut Acc, known: &[KnownFinding], coun
 }
 
 fn eval_one_inner<P: Part>(case: &P::Case, acc: &mut Acc, known: &[KnownFinding], count: bool) -> Result<(), Violation> {
-    let out = match std::panic::catch_unwind(std::panic::AssertUnwindSafe(|| P::run(case, false))) {
+    eval_outcome::<P>(case, None, acc, known, count)
+}
+
+fn eval_outcome<P: Part>(case: &P::Case, pre: Option<Outcome>, acc: &mut Acc, known: &[KnownFinding], count: bool) -> Result<(), Violation> {
+    let out = if let Some(o) = pre { o } else { match std::panic::catch_unwind(std::panic::AssertUnwindSafe(|| P::run(case, false))) {
         Ok(o) => o,
         Err(e) => {
             let msg = e
@@ -202,7 +208,7 @@ fn eval_one_inner<P: Part>(case: &P::Case, acc: &mut Acc, known: &[KnownFinding]
                 trace: vec![],
             }
         }
-    };
+    } };
     if count {
         acc.evaluations += 1;
         if out.nontrivial {
@@ -255,8 +261,22 @@ pub fn run_shard<P: Part>(tier: Tier, seed: u64, shard: u32, of: u32, cases_over
     let mut violation: Option<(Violation, P::Case)> = None;
 
     // directed cases: split round-robin over the shards
-    // exhaustive parts enumerate by re-execution: do it once, in shard 0
-    let directed = if P::EXHAUSTIVE && shard != 0 { vec![] } else { P::directed(tier) };
+    // exhaustive parts enumerate by re-execution: do it once, in shard 0, judging as they go
+    if P::EXHAUSTIVE && shard == 0 {
+        let mut stop = false;
+        P::enumerate(tier, &mut |case, outcome| {
+            if stop {
+                return false;
+            }
+            if let Err(v) = eval_outcome::<P>(case, Some(outcome), &mut acc, &known, true) {
+                violation = Some((v, case.clone()));
+                stop = true;
+                return false;
+            }
+            true
+        });
+    }
+    let directed = if P::EXHAUSTIVE { vec![] } else { P::directed(tier) };
     for (i, case) in directed.iter().enumerate() {
         if !P::EXHAUSTIVE && (i as u32) % of != shard {
             continue;
